@@ -303,21 +303,29 @@ class RunId(object):
             self.benchmark.as_simple_string(),
             self.cores, self.input_size, self.var_value, self.tag)
 
-    def _expand_vars(self, string):
-        try:
-            return string % {'benchmark': self.benchmark.command,
-                             'cores': self.cores_as_str,
-                             'executor': self.benchmark.suite.executor.name,
-                             'input': self.input_size_as_str,
-                             'iterations': self.iterations,
+    def _expand_vars(self, string, result_is_format_string=False):
+        values = {'benchmark': self.benchmark.command,
+                  'cores': self.cores_as_str,
+                  'executor': self.benchmark.suite.executor.name,
+                  'input': self.input_size_as_str,
+                  'iterations': self.iterations,
+                  'suite': self.benchmark.suite.name,
+                  'variable': self.var_value_as_str,
+                  'tag': self.tag_as_str,
+                  'warmup': self.benchmark.run_details.warmup}
+        fmt = string
+        if result_is_format_string:
+            # the result is formatted a second time to insert the invocation number,
+            # so every literal % has to reach it as %%
+            fmt = string.replace('%%', '%%%%')
+            values = {k: v.replace('%', '%%') if isinstance(v, str) else v
+                      for k, v in values.items()}
 
-                             # the invocation number needs to be set right before execution
-                             # we don't know it here, and it would change the RunId identity
-                             'invocation': '%(invocation)s',
-                             'suite': self.benchmark.suite.name,
-                             'variable': self.var_value_as_str,
-                             'tag': self.tag_as_str,
-                             'warmup': self.benchmark.run_details.warmup}
+        # the invocation number needs to be set right before execution
+        # we don't know it here, and it would change the RunId identity
+        values['invocation'] = '%(invocation)s'
+        try:
+            return fmt % values
         except ValueError as err:
             self._report_format_issue_and_exit(string, err)
             return None
@@ -358,7 +366,7 @@ class RunId(object):
         if self.benchmark.extra_args:
             cmdline += " " + str(self.benchmark.extra_args)
 
-        cmdline = self._expand_vars(cmdline)
+        cmdline = self._expand_vars(cmdline, True)
 
         self._cmdline = cmdline.strip()
         self.executable = cmdline.split(" ")[0]
